@@ -50,6 +50,8 @@ def make_case(rng, tier, damage, max_damage=4):
         case["case_sibling"] = True
     if rng.random() < 0.2:
         case["via_symlink"] = True
+    elif rng.random() < 0.25:
+        case["reuse_checker"] = True
     return case
 
 
@@ -116,6 +118,8 @@ def _make_case(rng, tier, damage, max_damage=4):
         # nested directories "is" the payload has no right answer (root_or_parent's side
         # conditions), so C04/C16 address damaged payloads by an unambiguous path
         case["parent_like_name"] = True
+    if version == 1 and source == "ref" and not single and pl > B and rng.random() < 0.4:
+        case["pad_to"] = B          # padding entries that align to 16 KiB inside larger pieces
     if version == 1 and source == "ref" and not single and rng.random() < 0.5:
         order = [rel for rel, _ in files]
         rng.shuffle(order)
@@ -324,6 +328,7 @@ def build(box, case):
             pl, version, single=single, trailing_pad=(case["source"] != "ref-notrail"),
             with_length=(case["source"] != "ref-nolen"), block=B,
             attrs={tuple(rel.split("/")): a for rel, a in (case.get("attrs") or {}).items()},
+            pad_to=case.get("pad_to"),
             extra={"announce": "http://t/a", "created by": "ref"})
         raw = refspec.encode(ref)
         with open(mpath, "wb") as fd:
